@@ -649,8 +649,8 @@ func (c *MJSocialElementComponent) Render(w io.StringWriter) error {
 			return err
 		}
 
-		// Text content cell
-		textContent := c.Node.Text
+		// Text content cell: the same content as in horizontal mode (inline markup kept, character data escaped)
+		textContent := c.Node.GetMixedContent()
 		if textContent != "" {
 			textTd := html.NewHTMLTag("td").
 				AddStyle("vertical-align", "middle").
